@@ -270,7 +270,8 @@ prop("C15", level="proof",
      verus=[],
      trust=["core::fmt::write calls write_str with the pieces in order and propagates Err"],
      not_covered=["f32/f64 round-tripping: the crate only forwards ryu::Buffer::format to from_str - floating point and an external "
-                  "dependency are outside this technique (not applicable); only the hand-over Repr::from_str is under contract"])
+                  "dependency are outside this technique (not applicable); only the hand-over is under contract: every f32/f64 bit pattern reaches "
+                  "ryu::Buffer::format unchanged and its output reaches Repr::from_str (float.*, structural)"])
 
 prop("C16", level="proof",
      claim="from_utf8 is parametric in the validator: with core::str::from_utf8 replaced by an arbitrary Result, Ok => text == input, Err => "
